@@ -113,18 +113,14 @@ theorem auth_gate_gen (r : Req) (hc : r.creds = true) (ha : r.auth ≠ .right) :
     (handle Gen.chain Gen.routes r).ops = [] ∧ (handle Gen.chainTracing Gen.routes r).ops = [] :=
   ⟨auth_gate _ _ r auth_outermost.1 hc ha, auth_gate _ _ r auth_outermost.2 hc ha⟩
 
-/-! ### the three recorded deviations of the unchanged tree -/
+/-! ### the two recorded deviations of the unchanged tree that concern the server model -/
 
-/-- K07: the CID pin route is addressed with mode=direct -/
-def pinsDirect (r : Req) : Bool :=
-  S.mode r.query == some .direct && expectations.any (fun e => addresses e r && e.shape == .pin "Cluster.Pin")
-
-/-- K08: the path matches a route pattern, no route has the method (and the method is not HEAD) -/
+/-- K20: the path matches a route pattern, no route has the method (and the method is not HEAD) -/
 def methodMismatch (r : Req) : Bool :=
   r.method != "HEAD" && (expectations.filter (fun e => addresses e r)).isEmpty &&
   expectations.any (fun e => matchPat e.pat r.segs r.slash)
 
--- K09 is `lenient` (Lemmas): the code reads options out of a query the strict reading calls undecodable
+-- K21 is `lenient` (Lemmas): the code reads options out of a query the strict reading calls undecodable
 
 /-! ### the main theorem -/
 
@@ -132,7 +128,7 @@ def methodMismatch (r : Req) : Bool :=
     `Gen.routes`, by `routes_aligned`) and every request outside the three recorded deviations, the
     model's response satisfies every clause of the property. -/
 theorem model_holds_table (t : List Route) (hal : aligned t expectations = true) (r : Req)
-    (h7 : pinsDirect r = false) (h8 : methodMismatch r = false) (h9 : lenient r = false) :
+    (h8 : methodMismatch r = false) (h9 : lenient r = false) :
     holds r (handle Gen.chain t r) = true := by
   cases ha : authorized r with
   | false => rw [handle_unauthorized t r ha]; exact holds_unauthorized ha
@@ -144,15 +140,7 @@ theorem model_holds_table (t : List Route) (hal : aligned t expectations = true)
     ⟨hn, b, hb, ho⟩ | ⟨hn, hh, e, h, he, hadr, hsh, ho⟩ | ⟨hnil, ho⟩ | ⟨hnil, hany, ho⟩
   · rw [ho]; exact holds_redirect ha hp hn
   · rw [ho]
-    refine holds_found ha hp hh hn he hadr (handler_ok h e r hsh h9 ?_) (wellShaped_handler h r e.pat)
-    intro hpin hm
-    subst hpin
-    have hshape : e.shape = .pin "Cluster.Pin" := by simpa [shapeOf] using hsh.symm
-    have : pinsDirect r = true := by
-      unfold pinsDirect
-      simp only [hm, beq_self_eq_true, Bool.true_and]
-      exact List.any_eq_true.mpr ⟨e, he, by simp [hadr, hshape]⟩
-    rw [this] at h7; exact absurd h7 (by decide)
+    exact holds_found ha hp hh hn he hadr (handler_ok h e r hsh h9) (wellShaped_handler h r e.pat)
   · rw [ho]; exact holds_unknown ha hp hnil (Or.inl rfl) (fun _ => rfl)
   · rw [ho]
     refine holds_unknown ha hp hnil (Or.inr rfl) ?_
@@ -164,21 +152,21 @@ theorem model_holds_table (t : List Route) (hal : aligned t expectations = true)
 
 /-- … for the route table and the handler chain of this tree -/
 theorem model_holds (r : Req)
-    (h7 : pinsDirect r = false) (h8 : methodMismatch r = false) (h9 : lenient r = false) :
+    (h8 : methodMismatch r = false) (h9 : lenient r = false) :
     holds r (handle Gen.chain Gen.routes r) = true :=
-  model_holds_table Gen.routes routes_aligned r h7 h8 h9
+  model_holds_table Gen.routes routes_aligned r h8 h9
 
 /-- … and with tracing enabled (the ochttp layer passes requests through) -/
 theorem model_holds_tracing (r : Req)
-    (h7 : pinsDirect r = false) (h8 : methodMismatch r = false) (h9 : lenient r = false) :
+    (h8 : methodMismatch r = false) (h9 : lenient r = false) :
     holds r (handle Gen.chainTracing Gen.routes r) = true := by
-  unfold handle; rw [serve_genTracing]; exact model_holds r h7 h8 h9
+  unfold handle; rw [serve_genTracing]; exact model_holds r h8 h9
 
 /-! ### the clauses one by one, each with only the hypothesis it needs -/
 
 /-- **fail_closed.** A request that is malformed for every route it addresses (or addresses none) is
     answered 4xx and performs nothing.  Needs only that the code does not read options out of an
-    undecodable query (K09). -/
+    undecodable query (K21). -/
 theorem fail_closed (r : Req) (ha : authorized r = true) (hp : preflight r = false)
     (hc : nonCanonical r = false) (h9 : lenient r = false)
     (hbad : ∀ e ∈ expectations, addresses e r = true → isMalformed (verdict e r) = true) :
@@ -188,20 +176,19 @@ theorem fail_closed (r : Req) (ha : authorized r = true) (hp : preflight r = fal
   · rw [hn] at hc; exact absurd hc (by decide)
   · rw [ho]
     have hm := hbad e he hadr
-    rcases handler_ok' h e r hsh h9 with hcf | ⟨_, _, hnm⟩
-    · cases hv : verdict e r with
-      | malformed => rw [hv] at hcf; simpa [conforms] using hcf
-      | perform w => rw [hv] at hm; simp [isMalformed] at hm
-      | either w => rw [hv] at hm; simp [isMalformed] at hm
-    · rw [hm] at hnm; exact absurd hnm (by decide)
+    have hcf := handler_ok h e r hsh h9
+    cases hv : verdict e r with
+    | malformed => rw [hv] at hcf; simpa [conforms] using hcf
+    | perform w => rw [hv] at hm; simp [isMalformed] at hm
+    | either w => rw [hv] at hm; simp [isMalformed] at hm
   · rw [ho]; unfold headAdjust; split <;> decide
   · rw [ho]; unfold headAdjust; split <;> decide
 
 /-- **faithful.** A request that is well-formed for a route it addresses yields exactly the operation
     that one of the routes it addresses names, with exactly the CID / path / options it carried (or, if
-    it is malformed for that one, the refusal).  Needs K07 and K09 excluded. -/
+    it is malformed for that one, the refusal).  Needs only K21 excluded. -/
 theorem faithful (r : Req) (ha : authorized r = true) (hp : preflight r = false)
-    (hc : nonCanonical r = false) (h7 : pinsDirect r = false) (h9 : lenient r = false)
+    (hc : nonCanonical r = false) (h9 : lenient r = false)
     (hgood : ∃ e ∈ expectations, addresses e r = true ∧ isMalformed (verdict e r) = false) :
     ∃ e ∈ expectations, addresses e r = true ∧ conforms (verdict e r) (handle Gen.chain Gen.routes r) = true := by
   have hne : expectations.filter (fun e => addresses e r) ≠ [] := by
@@ -214,20 +201,12 @@ theorem faithful (r : Req) (ha : authorized r = true) (hp : preflight r = false)
   · rw [hn] at hc; exact absurd hc (by decide)
   · refine ⟨e, he, hadr, ?_⟩
     rw [ho]
-    refine handler_ok h e r hsh h9 ?_
-    intro hpin hm
-    subst hpin
-    have hshape : e.shape = .pin "Cluster.Pin" := by simpa [shapeOf] using hsh.symm
-    have : pinsDirect r = true := by
-      unfold pinsDirect
-      simp only [hm, beq_self_eq_true, Bool.true_and]
-      exact List.any_eq_true.mpr ⟨e, he, by simp [hadr, hshape]⟩
-    rw [this] at h7; exact absurd h7 (by decide)
+    exact handler_ok h e r hsh h9
   · exact absurd hnil hne
   · exact absurd hnil hne
 
 /-- **single_document.** Every response body is a single JSON document (with the HTTP-defined
-    exceptions spelled out in `singleDocument`).  Needs only K08 excluded; in particular it holds for
+    exceptions spelled out in `singleDocument`).  Needs only K20 excluded; in particular it holds for
     every combination of invalid parts and options (the F07 repair). -/
 theorem single_document (r : Req) (h8 : methodMismatch r = false) :
     singleDocument r (handle Gen.chain Gen.routes r) = true := by
@@ -303,12 +282,7 @@ def callWf : Call → Prop
   | .pinPath p _ | .unpinPath p => ∀ s ∈ p, segOK s
   | _ => True
 
-/-- K07 through the client: Pin with mode=direct -/
-def clientPinsDirect : Call → Bool
-  | .pin _ o => o.mode == .direct
-  | _ => false
-
-/-- K10: a status filter that `TrackerStatus.String` writes wider than it is -/
+/-- K23: a status filter that `TrackerStatus.String` writes wider than it is -/
 def clientFilterWidens : Call → Bool
   | .statusAll m _ => widen m != m
   | _ => false
@@ -319,9 +293,9 @@ def clientFilterWidens : Call → Bool
     operation the method names with exactly the arguments given, and the client returns the server's
     answer (an error with the server's status when the server answered an error; 401 and nothing
     performed without valid credentials; an invalid path is refused before anything is sent).
-    Excluded: K07 (Pin with mode=direct), K01d (the answer carries origins), K10 (widened filter). -/
+    Excluded: K01d (the answer carries origins), K23 (widened filter). -/
 theorem client_server_inverse (cfg : CliCfg) (c : Call) (hwf : callWf c)
-    (h7 : clientPinsDirect c = false) (h1 : answerHasOrigins c = false) (h10 : clientFilterWidens c = false) :
+    (h1 : answerHasOrigins c = false) (h10 : clientFilterWidens c = false) :
     cliHolds cfg c (clientCall Gen.chain Gen.routes cfg c).1 (clientCall Gen.chain Gen.routes cfg c).2 = true := by
   cases c with
   | id => exact client_id cfg
@@ -338,12 +312,8 @@ theorem client_server_inverse (cfg : CliCfg) (c : Call) (hwf : callWf c)
     exact client_peerRm cfg s hwf.1 p hp
   | pin s o =>
     obtain ⟨c', hc⟩ := Option.isSome_iff_exists.mp hwf.2
-    have hm : o.mode = .recursive := by
-      cases hmo : o.mode with
-      | recursive => rfl
-      | direct => simp [clientPinsDirect, hmo] at h7
     have ho : o.origins = [] := by simpa [answerHasOrigins] using h1
-    exact client_pin cfg s o hwf.1 c' hc hm ho
+    exact client_pin cfg s o hwf.1 c' hc ho
   | unpin s =>
     obtain ⟨c', hc⟩ := Option.isSome_iff_exists.mp hwf.2
     exact client_unpin cfg s hwf.1 c' hc
@@ -366,19 +336,16 @@ theorem client_server_inverse (cfg : CliCfg) (c : Call) (hwf : callWf c)
   | repoGC l => exact client_repoGC cfg l
   | metrics s => exact client_metrics cfg s hwf
 
-/-- the three client-side deviations are real: a concrete call each on which the clauses fail -/
+/-- the two client-side deviations are real: a concrete call each on which the clauses fail; and the repaired
+    K07 stays repaired: a pin with mode=direct arrives direct and stays direct once stored -/
 def cfgOpen : CliCfg := { creds := false, auth := .none, rpc := .ok }
 def sC3 : Seg := ⟨"c3", some 3, some 1003⟩
 def o0 : Opts := (pinCid 0).opts
-theorem client_K07_witness :
-    cliHolds cfgOpen (.pin sC3 { o0 with mode := .direct })
-      (clientCall Gen.chain Gen.routes cfgOpen (.pin sC3 { o0 with mode := .direct })).1
-      (clientCall Gen.chain Gen.routes cfgOpen (.pin sC3 { o0 with mode := .direct })).2 = false := by decide
 theorem client_K01d_witness :
     cliHolds cfgOpen (.pin sC3 { o0 with origins := [1] })
       (clientCall Gen.chain Gen.routes cfgOpen (.pin sC3 { o0 with origins := [1] })).1
       (clientCall Gen.chain Gen.routes cfgOpen (.pin sC3 { o0 with origins := [1] })).2 = false := by decide
-theorem client_K10_witness :
+theorem client_K23_witness :
     widen 136 = 142 ∧
     cliHolds cfgOpen (.statusAll 136 false)
       (clientCall Gen.chain Gen.routes cfgOpen (.statusAll 136 false)).1
@@ -410,12 +377,10 @@ theorem add_parse_refused (r : AddReq) (ha : addAuthorized r = true)
     · exact absurd h hm
     · simp [hm, h]
 
-/-- a well-formed add that the adder does not reject later (K11), outside the CIDv0-with-another-hash crash
-    (K12), asks for one allocation with the carried options, puts blocks, and pins a plain data pin
+/-- a well-formed add that the adder does not reject later (K24) asks for one allocation with the carried options, puts blocks, and pins a plain data pin
     carrying exactly the carried options (mode and pin-update do not apply to adding) -/
 theorem add_faithful (r : AddReq) (ha : addAuthorized r = true) (hm : r.mp = .ok) (p : AddParams)
     (hp : addParams r.query r.md = some p) (hl : lateFailure r p = false) (hr : r.rpc = .ok)
-    (hv : (p.cidv == 0 && hashOf r != "sha2-256") = false)
     (w : Opts) (hw : carried r.query r.md = some w) :
     addFaithful r (addHandle r) = true := by
   obtain ⟨o, ho, hpo⟩ := addParams_opts hp
@@ -425,20 +390,24 @@ theorem add_faithful (r : AddReq) (ha : addAuthorized r = true) (hm : r.mp = .ok
   have hna : (r.creds && r.auth != .right) = false := by
     unfold addAuthorized at ha
     cases hc : r.creds <;> cases hau : r.auth <;> simp_all
-  simp only [hna, hm, hp, hr, hv, Bool.false_eq_true, if_false]
+  simp only [hna, hm, hp, hr, Bool.false_eq_true, if_false]
   simp [addFaithful, hw, hl, addCmp, addOpts, hpo, pinArg, pinWithOpts, depthToMode, modeToDepth, canonOpts]
 
-/-- K11 and K12 are real: a broken multipart body is answered 200 with an error trailer; a hash function
-    other than sha2-256 with the default CID version gets no response after an allocation was requested -/
+/-- K24 is real: a broken multipart body is answered 200 with an error trailer.  The repaired K25 stays
+    repaired: another hash function with an explicit CID version 0 is refused 400 with nothing performed; without a
+    version it is added as CIDv1 -/
 def addReq0 : AddReq := { creds := false, auth := .none, mp := .ok, query := [], md := [], rpc := .ok }
-theorem add_K11_witness :
+theorem add_K24_witness :
     addHandle { addReq0 with mp := .junk } = { status := 200, body := .docs 0, trailer := true, root := none, ops := [] } ∧
     addHolds { addReq0 with mp := .junk } (addHandle { addReq0 with mp := .junk }) = false := by decide
-theorem add_K12_witness :
-    (addHandle { addReq0 with query := [("hash", .valid (.str "sha3-512"))] }).status = 0 ∧
-    (addHandle { addReq0 with query := [("hash", .valid (.str "sha3-512"))] }).ops.length = 1 ∧
+theorem add_other_hash :
+    addHandle { addReq0 with query := [("hash", .valid (.str "sha3-512")), ("cid-version", .valid (.int 0))] } =
+      { status := 400, body := .docs 1, trailer := false, root := none, ops := [] } ∧
+    addHolds { addReq0 with query := [("hash", .valid (.str "sha3-512")), ("cid-version", .valid (.int 0))] }
+      (addHandle { addReq0 with query := [("hash", .valid (.str "sha3-512")), ("cid-version", .valid (.int 0))] }) = true ∧
+    (addHandle { addReq0 with query := [("hash", .valid (.str "sha3-512"))] }).root = some ⟨1, "raw", "sha3-512"⟩ ∧
     addHolds { addReq0 with query := [("hash", .valid (.str "sha3-512"))] }
-      (addHandle { addReq0 with query := [("hash", .valid (.str "sha3-512"))] }) = false := by decide
+      (addHandle { addReq0 with query := [("hash", .valid (.str "sha3-512"))] }) = true := by decide
 
 /-! ### the full statement, and why it is false of the unchanged tree -/
 
@@ -451,21 +420,24 @@ def req0 : Req :=
   { creds := false, auth := .none, pf := false, method := "POST", segs := [sPins, sCid3], slash := false,
     query := [], md := [], body := .none, rpc := .ok }
 
-/-- K07: POST /pins/<cid>?mode=direct — the operation performed is a recursive pin -/
-def rK07 : Req := { req0 with query := [("mode", .valid (.mode .direct))] }
-/-- K08: PUT /pins/<cid> — 405 with an empty body -/
-def rK08 : Req := { req0 with method := "PUT" }
-/-- K09: POST /pins/<cid>?mode=<unknown> — pinned although the option does not decode -/
-def rK09 : Req := { req0 with query := [("mode", .invalid)] }
+/-- (repaired K07) POST /pins/<cid>?mode=direct -/
+def rDirect : Req := { req0 with query := [("mode", .valid (.mode .direct))] }
+/-- K20: PUT /pins/<cid> — 405 with an empty body -/
+def rK20 : Req := { req0 with method := "PUT" }
+/-- K21: POST /pins/<cid>?mode=<unknown> — pinned although the option does not decode -/
+def rK21 : Req := { req0 with query := [("mode", .invalid)] }
 
-theorem K07_witness : pinsDirect rK07 = true ∧ holds rK07 (handle Gen.chain Gen.routes rK07) = false := by decide
-theorem K08_witness : methodMismatch rK08 = true ∧ holds rK08 (handle Gen.chain Gen.routes rK08) = false := by decide
-theorem K09_witness : lenient rK09 = true ∧ holds rK09 (handle Gen.chain Gen.routes rK09) = false := by decide
+theorem pin_direct_stays_direct :
+    holds rDirect (handle Gen.chain Gen.routes rDirect) = true ∧
+    (handle Gen.chain Gen.routes rDirect).ops.map (·.arg) =
+      [.pin (pinWithOpts 3 { (pinCid 0).opts with mode := .direct }) .direct] := by decide
+theorem K20_witness : methodMismatch rK20 = true ∧ holds rK20 (handle Gen.chain Gen.routes rK20) = false := by decide
+theorem K21_witness : lenient rK21 = true ∧ holds rK21 (handle Gen.chain Gen.routes rK21) = false := by decide
 
 theorem C11_full_fails : ¬ C11_full := by
   intro h
-  have h1 := h rK07
-  rw [K07_witness.2] at h1
+  have h1 := h rK20
+  rw [K20_witness.2] at h1
   exact absurd h1 (by decide)
 
 /-! ### concrete non-trivial inputs that meet the hypotheses -/
@@ -479,7 +451,7 @@ def rPin : Req :=
                 ("origins", .valid (.nats [4])), ("name", .valid (.nat 5))],
       md := [(3, 1), (1, 2), (3, 9), (0, 7)] }
 
-example : pinsDirect rPin = false ∧ methodMismatch rPin = false ∧ lenient rPin = false ∧
+example : methodMismatch rPin = false ∧ lenient rPin = false ∧
     (handle Gen.chain Gen.routes rPin).status = 200 ∧
     (handle Gen.chain Gen.routes rPin).ops =
       [⟨"Cluster.Pin", .pin ⟨3, .dataT, ⟨3, 3, 2, .recursive, 0, .future 9001, [(1, 2), (3, 1)], none, [4], [1, 2]⟩,
